@@ -144,6 +144,11 @@ func VerifHarness_C03_WriteToShard() {
 	consistency := models.ConsistencyLevel(vChoice("consistency", 4))
 	closed := vBool("serviceClosing")
 	timeoutFires := vBool("timeoutFires")
+	if n == 4 {
+		// four owners (thorough tier): the coordinator is the first owner or no owner (the code
+		// treats owners symmetrically), no shutdown and no timeout (covered with up to 3 owners)
+		vAssume(!closed && !timeoutFires && (localIdx == 0 || localIdx == n))
+	}
 
 	w := NewPointsWriter()
 	w.AllowOutOfOrderWrites = vBool("allowOutOfOrder")
